@@ -205,7 +205,7 @@ type cpDoc struct {
 // CheckpointRun: writers run while a feed with a checkpoint prefix in resume mode is started and stopped repeatedly;
 // its callback parks so that events are still queued when the terminator closes. Finally a Dump run catches up.
 // Taken together the runs must deliver every key's final version; the checkpoint never exceeds the delivered maximum.
-func CheckpointRun(m *MultiBucket, writers, opsEach, keys, restarts int, r *rng.R) (CheckpointResult, string, map[string]any) {
+func CheckpointRun(m *MultiBucket, writers, opsEach, keys, restarts int, keysOnly bool, r *rng.R) (CheckpointResult, string, map[string]any) {
 	var res CheckpointResult
 	col := m.CollsBy[0][0]
 	const prefix, id = "cp", "feed1"
@@ -243,7 +243,7 @@ func CheckpointRun(m *MultiBucket, writers, opsEach, keys, restarts int, r *rng.
 		f.KeepVal = true
 		park := make(chan struct{}, 1<<16)
 		f.Park = park
-		args := sgbucket.FeedArguments{ID: id, Backfill: sgbucket.FeedResume, CheckpointPrefix: prefix, Dump: dump, Terminator: f.Term, DoneChan: f.Done}
+		args := sgbucket.FeedArguments{ID: id, Backfill: sgbucket.FeedResume, CheckpointPrefix: prefix, Dump: dump, Terminator: f.Term, DoneChan: f.Done, KeysOnly: keysOnly}
 		h := res.Runs % len(m.CollsBy)
 		if err := m.CollsBy[h][0].StartDCPFeed(context.Background(), args, f.Callback, nil); err != nil {
 			return "setup|StartDCPFeed(resume) failed: " + err.Error()
@@ -445,7 +445,7 @@ func CheckpointRun(m *MultiBucket, writers, opsEach, keys, restarts int, r *rng.
 				return res, fmt.Sprintf("skipped|key %s holds a body but no run of the checkpointed feed delivered any version of it (checkpoints %v)", k, res.Checkpoints), map[string]any{"key": k, "result": res}
 			case gerr == nil && n.Op == uint8(sgbucket.FeedOpDeletion):
 				return res, fmt.Sprintf("skipped|key %s holds a body, but the newest version the checkpointed feed delivered (CAS %d) is a deletion: its re-creation was skipped (checkpoints %v)", k, n.Cas, res.Checkpoints), map[string]any{"key": k, "result": res}
-			case gerr == nil && !bytes.Contains(n.Val, raw):
+			case gerr == nil && !keysOnly && !bytes.Contains(n.Val, raw):
 				return res, fmt.Sprintf("skipped|key %s holds %q, but the newest version the checkpointed feed delivered (CAS %d) carries another body (checkpoints %v)", k, raw, n.Cas, res.Checkpoints), map[string]any{"key": k, "result": res}
 			case gerr != nil && kv.ErrClass(gerr) == "missing" && have && n.Op != uint8(sgbucket.FeedOpDeletion):
 				return res, fmt.Sprintf("skipped|key %s has no body, but the newest version the checkpointed feed delivered (CAS %d) is a mutation: its deletion was skipped (checkpoints %v)", k, n.Cas, res.Checkpoints), map[string]any{"key": k, "result": res}
